@@ -22,8 +22,15 @@
 #include <algorithm>
 #include <iomanip>
 #include <ctime>
+// Trigon's tables are the only heap arrays the decoders index with packet-derived values: record what the constructor
+// really allocates (requested bytes) so that the table extent in Gen/Params_gen.v is the one of the current source
+static size_t g_mallocs[16]; static void* g_malloc_ptr[16]; static int g_nmalloc = 0;
+static void* probe_malloc(size_t n) { void* p = malloc(n); if (g_nmalloc < 16) { g_mallocs[g_nmalloc] = n; g_malloc_ptr[g_nmalloc] = p; g_nmalloc++; } return p; }
 #define private public
 #define protected public
+#define malloc(n) probe_malloc(n)
+#include <rs_driver/driver/decoder/trigon.hpp>
+#undef malloc
 #include <rs_driver/driver/decoder/decoder_factory.hpp>
 #include <rs_driver/driver/input/input.hpp>
 #include <rs_driver/msg/point_cloud_msg.hpp>
@@ -208,6 +215,18 @@ int main()
   kv("MAX_BLOCKS_PER_PKT", BlockIterator<RS32MsopPkt>::MAX_BLOCKS_PER_PKT);
   kv("SEQ_RANGE", SplitStrategyBySeq::RANGE);
   kv("TRIGON_MIN", Trigon::ANGLE_MIN); kv("TRIGON_MAX", Trigon::ANGLE_MAX);
+  {
+    // extent of the sine / cosine tables as allocated by Trigon::Trigon(), in elements, relative to the pointers sin()/cos() index
+    g_nmalloc = 0;
+    Trigon tg;
+    long slo = 0, sn = -1, clo = 0, cn = -1;
+    for (int i = 0; i < g_nmalloc; i++)
+    {
+      if (g_malloc_ptr[i] == (void*)tg.o_sins_) { sn = (long)(g_mallocs[i] / sizeof(float)); slo = (long)(tg.o_sins_ - tg.sins_); }
+      if (g_malloc_ptr[i] == (void*)tg.o_coss_) { cn = (long)(g_mallocs[i] / sizeof(float)); clo = (long)(tg.o_coss_ - tg.coss_); }
+    }
+    kv("TRIG_SIN_LO", slo); kv("TRIG_SIN_LEN", sn); kv("TRIG_COS_LO", clo); kv("TRIG_COS_LEN", cn);
+  }
   kv("sizeof_cali", sizeof(RSCalibrationAngle)); kv("off_cali_sign", OFF(RSCalibrationAngle, sign)); kv("off_cali_value", OFF(RSCalibrationAngle, value));
   kv("sizeof_ymd", sizeof(RSTimestampYMD)); kv("sizeof_utc", sizeof(RSTimestampUTC));
   J << "\"crc_table\":[";
